@@ -27,6 +27,7 @@ INIT9 = [(a, b) for a in (True, False, 'empty', 'same') for b in (True, False, '
 NINIT = len(INIT9)
 FILE_RUN = 'v5_7_0'
 WS_NATURAL = ['calib_unset', 'resolve_unset', 'flist_missing', 'flist_truncated', 'rescore_exists', 'score_raises', 'score_exits',
+              'score_real',
               'calib_empty', 'calib_empty+resolve_unset', 'calib_empty+flist_missing', 'calib_empty+score_raises']
 TI_NATURAL = ['par_missing', 'kw_missing_object', 'kw_missing_run1d', 'kw_missing_minuse', 'kw_nonnumeric_niter',
               'kw_nonnumeric_wavemin', 'hmf_kw_missing_epsilon', 'hmf_kw_bad_nonnegative', 'spplate_missing', 'fibre_absent',
@@ -178,8 +179,16 @@ class C20(Check):
         if os.path.isdir(d):
             shutil.rmtree(d)
         os.makedirs(d)
-        a = np.zeros(3, dtype=[('RUN', 'i4'), ('CAMCOL', 'i4'), ('FIELD', 'i4'), ('SCORE', 'f4')])
+        # the columns the real sdss_score reads (natural failure 'score_real': no per-field files exist)
+        a = np.zeros(3, dtype=[('RUN', 'i4'), ('CAMCOL', 'i4'), ('FIELD', 'i4'), ('SCORE', 'f4'), ('RERUN', 'S3'),
+                               ('PHOTO_STATUS', 'i4'), ('PSP_STATUS', 'i4', (5,)), ('PSF_FWHM', 'f4', (5,)),
+                               ('SKYFLUX', 'f4', (5,)), ('XBIN', 'i4'), ('YBIN', 'i4'), ('IMAGE_STATUS', 'i4', (5,)),
+                               ('SUN_ANGLE', 'f4'), ('CALIB_STATUS', 'i4', (5,))])
         a['RUN'] = [94, 94, 125]
+        a['CAMCOL'] = [1, 2, 3]
+        a['FIELD'] = [12, 13, 14]
+        a['RERUN'] = '301'
+        a['XBIN'] = a['YBIN'] = 1
         fits.HDUList([fits.PrimaryHDU(), fits.BinTableHDU(a)]).writeto(os.path.join(d, 'window_flist.fits'))
         return d
 
@@ -216,6 +225,11 @@ class C20(Check):
         elif variant == 'fibre_absent':
             rows[5] = (3587, 55182, 300)
         text = ''.join('%s %s\n' % (k, d[k]) for k, _ in kw if k in d)
+        # further keywords a parameter file may carry (ignored by the current tree): whatever the entry point does with them,
+        # the environment has to come back
+        text += ''.join('%s %s\n' % kv for kv in (('topdir', os.path.join(self.workdir, 'elsewhere', 'redux')),
+                                                  ('spectro_redux', '/nonexistent/redux'), ('run', 'v9_9_9'),
+                                                  ('photo_calib', '/nonexistent/calib'), ('outdir', self.workdir)))
         if variant != 'no_eigenobj_table':
             text += 'typedef struct {\n int plate;\n int mjd;\n int fiberid;\n double zfit;\n} EIGENOBJ;\n'
             text += ''.join('EIGENOBJ %d %d %d %g\n' % (pl, mj, f, z) for (pl, mj, f), z in zip(rows, g.uniform(0, 0.01, len(rows))))
@@ -355,11 +369,21 @@ class C20(Check):
                 self._stub.fail = True
             elif nat == 'score_exits':
                 self._stub.fail = 'exit'
+            elif nat == 'score_real':
+                # the real scoring stage: it builds per-field file names from the SDSS tree variables (none of which is set)
+                # and fails on the first file it cannot open
+                W.sdss_score = self._saved_score
             if fault['mode'] in ('line', 'call') and fault['index'] >= rec['n' + fault['mode']]:
                 out.count('index_beyond_recorded_path')
                 return
-            before, after, events, exc, fp = self._monitored(self.ws_codes, func, fault)
+            try:
+                before, after, events, exc, fp = self._monitored(self.ws_codes, func, fault)
+            finally:
+                W.sdss_score = self._stub
             self._stub.fail = False
+            if nat == 'score_real':
+                out.expect(exc is not None, 'harness-error', 'the real sdss_score ran to completion without any survey file')
+                out.count('real_scoring_stage_failures', exc is not None)
             ev = self._verdict(out, before, after, events, ['PHOTO_CALIB'], 'window_score(rescore=%s) fault=%s' % (case['rescore'], fault), fp)
             self._account(out, case, fault, exc, fp, ev, before, ['PHOTO_CALIB'], rec)
 
